@@ -32,16 +32,15 @@ CHECKS = {
   text="Lean theorems about the specification MVMap (sorted association list key -> versions newest first, the exact functions the driver runs): "
        "insert/get laws, strict key order and strictly decreasing version timestamps for every reachable map, History = window of the full version list in "
        "either direction, readers return EXACTLY the keys in the declarative range (seek/end/prefix, both directions, offset) in order, flush changes no read, "
-       "GetBetween equals 'newest version <= t2 with ts >= t1' whenever the history-log chain is not overrun, snapshots are immutable under every later "
-       "operation list and never older than the requested ts; plus machine-checked WITNESSES of two defects (GetBetween returning another key's version; "
+       "GetBetween equals 'newest version <= t2 with ts >= t1' over the key's own versions for every map, key and range (and is unchanged by a flush), snapshots are immutable under every later "
+       "operation list and never older than the requested ts; plus regression statements of two REPAIRED defects on their original inputs (GetBetween returning another key's version; "
        "rejected insert after reopen emptying the tree). The implementation model BTree.lean (functional B+tree with the code's serialized-size formulas, "
        "splitIndex, per-child grouping, root growth) is PROVED to refine the spec for single-entry inserts (any node size, depth, shape; splits at all levels) and for get; "
        "multi-entry bulks are carried by the tie only (tree depth after every BulkInsert equals tbtree's depth gauge; abs(tree)=map asserted by the driver after every op). Tie: the real tbtree (MaxNodeSize at the minimum, cache off/tiny, flush thresholds 1.., small files, "
        "cleanup 0..100, compaction, close/reopen, open snapshots re-read after later mutations) is compared call by call with the Lean driver and with an "
        "independent Go reference map.",
-  note=TB + " Modelled rather than verified: node/file format, cache, nodeRef lazy loading, hLog byte layout (abstracted to per-key block lists + the block at "
-       "offset 0); wall-clock snapshot renewal (RenewSnapRootAfter=0), Snapshot.Set, SyncSnapshot, HistoryReader and Reader.Reset on history readers are not exercised; "
-       "that the Go code never mutates a pinned tree is checked by re-reading open snapshots (a search). Three known findings (known_findings.json).",
+  note=TB + " Modelled rather than verified: node/file format, cache, nodeRef lazy loading, hLog byte layout (abstracted to per-key block lists); wall-clock snapshot renewal (RenewSnapRootAfter=0), Snapshot.Set, SyncSnapshot, HistoryReader and Reader.Reset on history readers are not exercised; "
+       "that the Go code never mutates a pinned tree is checked by re-reading open snapshots (a search). Three findings, all repaired in the repository ('fixed' lines of known_findings.json; the probes stay).",
   technique="Lean 4 proof (induction over sorted lists / operation lists, refinement) + differential correspondence against the real tbtree + reference-map oracle",
   design="7/C10"),
  "C09": dict(
